@@ -107,13 +107,20 @@ func (e *Enc) rangeCopy(dst, src Val, d, s, n T) Val {
 	if e.quantDepth > 0 {
 		panic(unsupported("range copy under quantifier"))
 	}
+	// name the operands so that the per-solver definitions below stay small
+	d, s, n = e.define(d, "rc_d"), e.define(s, "rc_s"), e.define(n, "rc_n")
 	for i := range dst.L {
-		r := e.declare(dst.L[i].S, "row")
+		dstA, srcA := e.define(dst.L[i], "rc_dst"), e.define(src.L[i], "rc_src")
+		name := e.fresh("row")
+		r := T{dst.L[i].S, name}
 		e.qCtr++
 		j := T{d.S, fmt.Sprintf("j!%d", e.qCtr)}
 		in := And(e.sle(d, j), e.slt(j, e.addIdx(d, n)))
-		body := Eq(Select(r, j), Ite(in, Select(src.L[i], e.addIdx(s, e.subIdx(j, d))), Select(dst.L[i], j)))
-		e.emit(fmt.Sprintf("(assert (forall ((%s %s)) (! %s :pattern (%s))))", j.E, d.S, body.E, Select(r, j).E))
+		val := Ite(in, Select(srcA, e.addIdx(s, e.subIdx(j, d))), Select(dstA, j))
+		// z3: array lambda (select reduces by beta-reduction); cvc5: constant plus quantified axiom
+		e.emit(fmt.Sprintf("#z3 (define-fun %s () %s (lambda ((%s %s)) %s))", name, r.S, j.E, d.S, val.E))
+		e.emit(fmt.Sprintf("#cvc5 (declare-const %s %s)", name, r.S))
+		e.emit(fmt.Sprintf("#cvc5 (assert\t(forall ((%s %s)) (! (= (select %s %s) %s) :pattern ((select %s %s)))))", j.E, d.S, name, j.E, val.E, name, j.E))
 		out.L[i] = r
 	}
 	return out
@@ -393,6 +400,8 @@ func (e *Enc) intrinsic(fr *Frame, fn *ssa.Function, args []Val, guard T, st *St
 			}
 		}
 		return one(e.define(r, "bits"), types.Typ[types.Int])
+	case "sort.Search":
+		return e.sortSearch(fr, args, guard, st, pos), true
 	case "errors.Is":
 		a, b := args[0].L[0], args[1].L[0]
 		e.declUF("err_wraps", "(Int Int) Bool")
